@@ -39,6 +39,7 @@ def run(F, R, ctx):
     string_token_printer_rule(F, R)
     delimiter_owner_rule(F, R)
     char_count_offset_rule(F, R)
+    per_char_offset_rule(F, R)
 
 
 def _run(F, R, ctx):
@@ -635,3 +636,51 @@ def char_count_offset_rule(F, R):
                         "character boundary and the host panics" % (fn.short(), lib.short_name(bad["callee"]), bad.get("line"))),
                fn.loc(bad.get("line")) if bad else "", sample=True)
     R.floor("C12.u", "functions that slice text at byte offsets (population examined)", n, 10)
+
+
+def per_char_offset_rule(F, R):
+    R.rule("C12.u", "(second form) a byte offset advanced once per character grows by the character's width: in the reader "
+                    "(steel-parser, and the runtime reader in steel_vm::primitives) a place that is incremented by the constant 1 "
+                    "inside a loop over the characters of a text (an iterator over `Chars`, not `CharIndices`) is not the start "
+                    "of a str range (`get(offset..)`, `[offset..]`, split_at) anywhere in the function. After a multi-byte "
+                    "character the offset lies inside a character: `get` answers None and the rest of the text is dropped, an "
+                    "index panics")
+    n = 0
+    for name, fn in sorted(F.fns.items()):
+        if not (name.startswith("steel_parser::") or re.search(r"^steel::steel_vm::primitives::\{impl Reader\}::", name)):
+            continue
+        heads = [i for i, b in fn.calls() if re.search(r"::next$", b["callee"]) and
+                 any(re.search(r"\bChars\b", t) and "CharIndices" not in t for t in (b.get("targs") or []))]
+        if not heads:
+            continue
+        n += 1
+        bumped = []
+        for h in heads:
+            cyc = {b for b in fn.reachable_from(fn.succ(h)) if h in fn.reachable_from(fn.succ(b))} | {h}
+            for b in cyc:
+                for e in fn.blocks[b]["e"]:
+                    if e[0] == "binop" and e[1] in ("AddWithOverflow", "Add") and "const:1" in [str(x) for x in e[5:]]:
+                        place = [str(x) for x in e[5:] if str(x) != "const:1"]
+                        if place and not re.match(r"^_\d+$", place[0]):
+                            bumped.append((place[0], e[3]))
+        bad = None
+        for place, line in bumped:
+            for i, b in fn.calls():
+                if re.search(r"core::str::\{impl str\}::(get|get_mut|split_at|split_at_mut|get_unchecked)$|core::str::traits::.*::index(_mut)?$",
+                             b["callee"]):
+                    # the range / position argument is built from the bumped place
+                    srcs = set()
+                    for a in b["args"][1:]:
+                        srcs |= lib.alias_sources(fn, a.split(".")[0])
+                    if place in srcs or any(s_.startswith(place) for s_ in srcs):
+                        bad = (place, line, b)
+                        break
+            if bad:
+                break
+        R.inst("C12.u", "%s / an offset bumped by 1 per character is not used as a byte position" % fn.short(), bad is None,
+               bad and ("%s adds 1 to %s for every character of a loop over `chars()` (line %s) and uses it as the start of a byte "
+                        "range (%s, line %s): after a multi-byte character — a U+3000 or no-break space after a datum — the offset "
+                        "is inside a character and the rest of the port is silently dropped: (read p) on \"a\\u3000b c\" answers a, "
+                        "then eof" % (fn.short(), bad[0], bad[1], lib.short_name(bad[2]["callee"]), bad[2].get("line"))),
+               fn.loc(bad[1]) if bad else "", sample=True)
+    R.floor("C12.u", "reader functions that loop over characters", n, 3)
